@@ -24,7 +24,7 @@
 (* obligation is discharged by SMT; the arithmetic of * \div % on integers is *)
 (* the solver's).  No leaf uses an unproved assumption: the module contains no*)
 (* ASSUME/AXIOM, OMITTED or PROOF-less steps.                                 *)
-EXTENDS Integers, TLAPS
+EXTENDS Integers
 
 \* BEGIN verbatim MatAlias.tla
 Min(a, b) == IF a < b THEN a ELSE b
@@ -231,10 +231,14 @@ LEMMA Geometry ==
 <1>1. ASSUME CellsN(w1) \cap CellsN(w2) # {} PROVE Meet(i1, w1.r, i2, w2.r) /\ Meet(j1, w1.c, j2, w2.c)
   <2>1. PICK x : x \in CellsN(w1) /\ x \in CellsN(w2)
     BY <1>1
+  <2>a. x \in CellsN(w1) <=> \E p \in i1 .. i1 + w1.r - 1, q \in j1 .. j1 + w1.c - 1 : x = Mul(p, st) + q
+    BY CellsChar
+  <2>b. x \in CellsN(w2) <=> \E p \in i2 .. i2 + w2.r - 1, q \in j2 .. j2 + w2.c - 1 : x = Mul(p, st) + q
+    BY CellsChar
   <2>2. PICK p1 \in i1 .. i1 + w1.r - 1, q1 \in j1 .. j1 + w1.c - 1 : x = Mul(p1, st) + q1
-    BY <2>1, CellsChar
+    BY <2>1, <2>a
   <2>3. PICK p2 \in i2 .. i2 + w2.r - 1, q2 \in j2 .. j2 + w2.c - 1 : x = Mul(p2, st) + q2
-    BY <2>1, CellsChar
+    BY <2>1, <2>b
   <2>4. q1 \in Nat /\ q1 < st /\ q2 \in Nat /\ q2 < st /\ p1 \in Int /\ p2 \in Int
     BY <1>0
   <2>5. p1 = p2 /\ q1 = q2
